@@ -412,6 +412,17 @@ def run(tier, seed):
             elif spec[k].get("ok") != ip["ok"]["canon"]:
                 case["impl"], case["spec"] = ip["ok"]["canon"], spec[k]
                 why = "named types do not carry the specification's full names (canonical form differs)"
+            elif '"error"' not in json.dumps(s):
+                # the caller's named-schema dictionary holds exactly the full names of the types the schema defines
+                exp_names = set()
+                for _p, node, ns_ in paths(s):
+                    if isinstance(node, dict) and node.get("type") in ("record", "enum", "fixed") and isinstance(node.get("name"), str):
+                        n_ = node["name"]
+                        nsx = n_.rpartition(".")[0] if "." in n_ else (node.get("namespace", ns_) or "")
+                        exp_names.add(n_ if "." in n_ else ((nsx + "." + n_) if nsx else n_))
+                if set(ip["ok"]["names"]) != exp_names:
+                    case["named_schemas_keys"], case["full_names_defined"] = sorted(ip["ok"]["names"]), sorted(exp_names)
+                    why = "the named-schema dictionary does not hold exactly the full names of the types the schema defines"
         else:
             if "ok" in ip:
                 why = "ill-formed schema (%s) accepted" % kind
